@@ -203,7 +203,7 @@ func init() {
 		// events extractor closure copies Events and TransactionHash
 		if f := p.Func("core", "extractAllTransactionEvents", "extract"); f != nil {
 			got := map[string]string{}
-			for _, g := range withAnons(f) {
+			for _, g := range withFuncValues(f) {
 				allInstrs(g, func(in ssa.Instruction) {
 					if st, ok := in.(*ssa.Store); ok {
 						if fa, ok := st.Addr.(*ssa.FieldAddr); ok && isNamed(fa.X.Type(), "core", "TransactionEvents") {
@@ -301,6 +301,11 @@ func registryTypes(p *Prog) []string {
 					if call, ok := stripIface(e).(*ssa.Call); ok && len(call.Call.Args) == 1 {
 						if mi, ok := call.Call.Args[0].(*ssa.MakeInterface); ok {
 							name = typeShort(mi.X.Type())
+						}
+					} else if ok && len(call.Call.Args) == 0 {
+						// reflect.TypeFor[T]()
+						if cal := call.Call.StaticCallee(); cal != nil && strings.HasPrefix(cal.Name(), "TypeFor") && len(cal.TypeArgs()) == 1 {
+							name = typeShort(cal.TypeArgs()[0])
 						}
 					}
 					reg = append(reg, name)
